@@ -1,7 +1,7 @@
 import numpy as np
 import json
 
-from ..settings import Sign, EnvType, Format
+from ..settings import Sign, EnvType, Format, Keyword
 from ..datatypes import StringType, BooleanType, NumberType, FloatType, IntegerType
 from ..nodes import StringNode, BooleanNode, FloatNode, IntegerNode
 from ..environment import Environment
@@ -68,13 +68,15 @@ class ExportConfig:
                     dtype = "u"+dtype
                 if param.precision!=IntegerType.precision:
                     dtype += str(param.precision)
-                value = json.dumps(value) if dims else int(param.value)
+                value = json.dumps(value) if dims else (None if value is None else int(param.value))
             elif isinstance(param, FloatType):
                 dtype = FloatNode.keyword
                 if param.precision!=FloatType.precision:
                     dtype += str(param.precision)
-                value = json.dumps(value) if dims else float(param.value)
+                value = json.dumps(value) if dims else (None if value is None else float(param.value))
             value = str(value).replace(" ","") if dims else value
+            if param.value is None:
+                value = Keyword.NONE
             if param.unit:
                 lines.append(f"{name} {dtype}{dims} = {value} {param.unit}")
             else:
